@@ -71,6 +71,9 @@ pub fn w1(rng: &mut Rng) -> (MBoard, bool, u64) {
 /// then moved elsewhere, and a handful of weak enemy pieces dropped among them. These are the positions with
 /// the longest step lists (50-70 steps), which random material on random squares never comes near.
 pub fn wide(rng: &mut Rng) -> (MBoard, bool, u64) {
+    if rng.chance(1, 2) {
+        return scattered(rng);
+    }
     let mut b = MBoard::empty();
     let mover_gold = rng.chance(1, 2);
     let class = rng.below(2);
@@ -112,6 +115,74 @@ pub fn wide(rng: &mut Rng) -> (MBoard, bool, u64) {
         }
         if place_random(&mut b, rng, cell(s, !mover_gold), 0, 64) {
             left[s as usize] -= 1;
+        }
+    }
+    legalise(&mut b);
+    (b, mover_gold, random_moveno(rng))
+}
+
+/// Scattered positions: the mover's army dropped one by one on squares without any occupied neighbour (whole board,
+/// traps excluded), then weak enemy pieces each next to exactly one - stronger - piece of the mover and nothing
+/// else: nearly every piece can step in every direction and nearly every enemy piece can be pushed three ways.
+pub fn scattered(rng: &mut Rng) -> (MBoard, bool, u64) {
+    let mut b = MBoard::empty();
+    let mover_gold = rng.chance(1, 2);
+    let nbs = |i: usize| -> Vec<usize> {
+        let mut v = vec![];
+        if i % 8 > 0 {
+            v.push(i - 1);
+        }
+        if i % 8 < 7 {
+            v.push(i + 1);
+        }
+        if i >= 8 {
+            v.push(i - 8);
+        }
+        if i < 56 {
+            v.push(i + 8);
+        }
+        v
+    };
+    let mut army: Vec<u8> = vec![];
+    for s in 0..6u8 {
+        for _ in 0..COMPLEMENT[s as usize] {
+            army.push(s);
+        }
+    }
+    rng.shuffle(&mut army);
+    let goal_row = if mover_gold { 0 } else { 7 };
+    for st in army {
+        for _ in 0..40 {
+            let i = rng.below(64);
+            if b.0[i] == 0 && !TRAPS.contains(&i) && nbs(i).iter().all(|n| b.0[*n] == 0) && !(st == 0 && i / 8 == goal_row) {
+                b.0[i] = cell(st, mover_gold);
+                break;
+            }
+        }
+    }
+    let n_enemy = rng.below(13);
+    let mut left = COMPLEMENT;
+    let enemy_goal_row = if mover_gold { 7 } else { 0 };
+    for _ in 0..n_enemy {
+        let s = match rng.below(10) {
+            0..=6 => 0u8,
+            7 | 8 => 1,
+            _ => 2,
+        };
+        if left[s as usize] == 0 {
+            continue;
+        }
+        for _ in 0..60 {
+            let i = rng.below(64);
+            if b.0[i] != 0 || TRAPS.contains(&i) || (s == 0 && i / 8 == enemy_goal_row) {
+                continue;
+            }
+            let occ: Vec<usize> = nbs(i).into_iter().filter(|n| b.0[*n] != 0).collect();
+            if occ.len() == 1 && is_gold(b.0[occ[0]]) == mover_gold && strength(b.0[occ[0]]) > s {
+                b.0[i] = cell(s, !mover_gold);
+                left[s as usize] -= 1;
+                break;
+            }
         }
     }
     legalise(&mut b);
